@@ -252,9 +252,10 @@ def c09(chk):
              keep=held, sample=600 if quick else 6000, mode="external")
     l0_traces(chk, "gc_traces", 16 if quick else 240, 600, 3, 5, "set,del,begin,commit,rollback,gc")
     # the database's own collector running all the time in the background ("at any moment, any number of times"): period 0
-    # (continuously), 1 ms, 5 ms. Without snapshot transactions: a snapshot Begin racing with the background collector is the
-    # recorded finding begin-unregistered-during-gc, which a trace has no schedule to recognise it by
-    specs = [dict(seed=vlib.seed() * 3571 + i, steps=400, keys=3, maxtx=3, ops="set,del,begin,commit,rollback,gc", levels="RU,RC", mode="inline",
+    # (continuously), 1 ms, 5 ms; snapshot transactions included (a snapshot Begin racing with the collector used to be the
+    # recorded finding begin-unregistered-during-gc; with sequence.Horizon it must hold)
+    lv = "RU,RC,RR,SER" if fixed_sig("begin-unregistered-during-gc") else "RU,RC"
+    specs = [dict(seed=vlib.seed() * 3571 + i, steps=400, keys=3, maxtx=3, ops="set,del,begin,commit,rollback,gc", levels=lv, mode="inline",
                   gcperiod=["0s", "1ms", "5ms"][i % 3]) for i in range(6 if quick else 60)]
     trace_stage(chk, "gc_in_background", "L0Trace.tla", dict(Keys=keyset(3), AllowedDev=set(allowed_dev())), specs)
 
@@ -954,7 +955,8 @@ def l2_stage(chk, name, consts, sample=60):
 
 
 L2_BASE = dict(Keys={1, 2}, WS1=set(), WS2=set(), L1="RC", L2="RR", WithR=False, WithW=False, WithA=False, WithG=False, WKey=1, OldVersions=1,
-               RangeDraw=bool([f for f in vlib.known_findings().get("fixed", []) if f.get("signature") == "begin-between-commit-draws"]))
+               RangeDraw=bool([f for f in vlib.known_findings().get("fixed", []) if f.get("signature") == "begin-between-commit-draws"]),
+               HorizonLock=bool([f for f in vlib.known_findings().get("fixed", []) if f.get("signature") == "begin-unregistered-during-gc"]))
 
 
 def c06(chk):
